@@ -94,6 +94,20 @@ void wv_cv_wait(wv_cv *cv, wv_mutex *m);
 void wv_cv_notify_all(wv_cv *cv);
 void wv_thread_join(wv_thread *t);
 
+/* <ctype.h> in the C locale (the program never calls setlocale): glibc's isalnum(c) expands to a table lookup through
+   __ctype_b_loc(); the model provides the alnum bit (_ISalnum == 8) for the ASCII letters and digits only */
+static const unsigned short wv_ctype_tab[384] = {
+#define WV_C0 0, 0, 0, 0, 0, 0, 0, 0
+#define WV_C8 8, 8, 8, 8, 8, 8, 8, 8
+  WV_C0, WV_C0, WV_C0, WV_C0, WV_C0, WV_C0, WV_C0, WV_C0, WV_C0, WV_C0, WV_C0, WV_C0, WV_C0, WV_C0, WV_C0, WV_C0, /* -128..-1 */
+  WV_C0, WV_C0, WV_C0, WV_C0, WV_C0, WV_C0,                 /* 0..47 */
+  WV_C8, 8, 8, 0, 0, 0, 0, 0, 0,                            /* '0'..'9', 58..63 */
+  0, 8, 8, 8, 8, 8, 8, 8, WV_C8, WV_C8, 8, 8, 8, 0, 0, 0, 0, 0,   /* 64, 'A'..'Z', 91..95 */
+  0, 8, 8, 8, 8, 8, 8, 8, WV_C8, WV_C8, 8, 8, 8, 0, 0, 0, 0, 0,   /* 96, 'a'..'z', 123..127 */
+  WV_C0, WV_C0, WV_C0, WV_C0, WV_C0, WV_C0, WV_C0, WV_C0, WV_C0, WV_C0, WV_C0, WV_C0, WV_C0, WV_C0, WV_C0, WV_C0};
+static const unsigned short *const wv_ctype_ptr = wv_ctype_tab + 128;
+static inline const unsigned short **__ctype_b_loc(void) { return (const unsigned short **)&wv_ctype_ptr; }
+
 /* R14 / C17 environment */
 wv_u64 wv_file_size(const char *path);
 struct option { const char *name; int has_arg; int *flag; int val; };
